@@ -93,6 +93,41 @@ func vh_C12_eval() {
 	}
 }
 
+// ---- Execute's own static step: the global-variable wiring ---------------
+//
+// genGlobalVars reports the "variable definition loop" error after the
+// program's root has been set up but before any init function or main runs.
+
+var vhFailGlobals bool
+
+func vmGenGlobalVarsFail(roots []*node, sc *scope) (*node, error) {
+	if vhFailGlobals {
+		return nil, errors.New("variable definition loop")
+	}
+	return nil, nil
+}
+
+func vh_C12_execute() {
+	vhResetClock()
+	vhStopAt = -1
+	i := vhNewInterp()
+	vhFailGlobals = vNondetBool("globalsFail")
+	root := &node{interp: i}
+	root.start = root
+	root.exec = func(*frame) bltn { return nil } // package-level declarations only
+	initRan := 0
+	in := &node{interp: i}
+	in.start = in
+	in.exec = func(*frame) bltn { initRan++; return nil }
+	vReach("C12.execute")
+	_, err := i.Execute(&Program{pkgName: "main", root: root, init: []*node{in, in}})
+	if vhFailGlobals {
+		vAssert("C12.no-run-on-error.execute", err != nil && initRan == 0)
+	} else {
+		vAssert("C12.run-when-ok.execute", err == nil && initRan == 2)
+	}
+}
+
 // ---- native scenarios (replay of protocol counterexamples) ---------------
 
 func vhScenarioC12(model map[string]string) bool {
@@ -114,7 +149,17 @@ func vhScenarioC12(model map[string]string) bool {
 	return violated
 }
 
+func vhScenarioC12Loop(map[string]string) bool {
+	// an initialisation cycle through function bodies is only seen by Execute's genGlobalVars
+	src := "package main\nvar x = f()\nvar y = g()\nfunc f() int { return y }\nfunc g() int { return x }\nfunc init() { println(\"RAN\") }\nfunc main() { println(\"RAN\") }\n"
+	var out bytes.Buffer
+	ip := New(Options{Stdout: &out, Stderr: &out})
+	_, err := ip.Eval(src)
+	return err == nil || strings.Contains(out.String(), "RAN")
+}
+
 var vhScenarios = map[string]func(map[string]string) bool{
+	"C12.no-run-on-error.execute": vhScenarioC12Loop,
 	"C12.no-run-on-error.eval": vhScenarioC12,
 	"C12.stops-at-first-error": vhScenarioC12,
 	"C12.run-when-ok.eval": func(map[string]string) bool {
@@ -125,6 +170,6 @@ var vhScenarios = map[string]func(map[string]string) bool{
 	},
 }
 
-var vhRegistry = map[string]func(){"vh_C12_eval": vh_C12_eval}
+var vhRegistry = map[string]func(){"vh_C12_eval": vh_C12_eval, "vh_C12_execute": vh_C12_execute}
 
 var vhIntVars = map[string]*int{"vhMaxSteps": &vhMaxSteps}
